@@ -116,7 +116,7 @@ def directory_case(draw):
             "known": draw(st.lists(st.integers(0, nsp - 1), max_size=nsp - 1, unique=True)),
             "exclude": draw(st.lists(st.integers(0, nsp - 1), max_size=1, unique=True)),
             "scale": draw(st.sampled_from([0.5, 0.5, 1.0, 0.3, 0.77, 0.0, 1e-3, 2.0])),
-            "outmode": draw(st.sampled_from(["default", "absolute", "relative", "relative-subdir"])),
+            "outmode": draw(st.sampled_from(["default", "absolute", "relative", "relative-subdir", "default-symlink"])),
             "mode": draw(st.sampled_from(["mol", "auto", "mixed"])),
             "seed": draw(gen.SEEDS), "orders": draw(st.integers(4, 6)),
             "spelling": [draw(st.sampled_from(SPELLINGS)), draw(st.sampled_from(SPELLINGS))]}
@@ -444,6 +444,11 @@ def check_cli(case):
     os.makedirs(workdir)
     if case["outmode"] == "default":
         out_args, expect_out = [], os.path.join(D["inputs"], "mapped_" + os.path.basename(D["system"]))
+    elif case["outmode"] == "default-symlink":
+        # the input is a symbolic link in another folder: "beside the input" is beside the link, under the link's name
+        argv_ref = os.path.join(workdir, "start.gro")
+        os.symlink(D["system"], argv_ref)
+        out_args, expect_out = [], os.path.join(workdir, "mapped_start.gro")
     elif case["outmode"] == "absolute":
         p = os.path.join(D["dir"], "out_abs.gro")
         out_args, expect_out = ["-o", p], p
